@@ -22,9 +22,11 @@ def canon_analysis(h, pairs=None, with_profiles=True, with_names=False):
     use = allp if pairs is None else [p for p in pairs if p[0] in gs and p[1] in gs]
     out['vmap'] = sorted(ob.vmapS(h.compare_genomes_vertically(gs[a], gs[d])) for a, d in use)
     if with_profiles:
-        out['tpfull'] = ob.profileS(h.create_tree_profile().treemap)
-        out['tphog'] = sorted(ob.profileS(h.create_tree_profile(hog=t).treemap, pathof(t.genome.taxon)) + '@' + nodekey(t)
-                              for t in h.get_list_top_level_hogs())
+        # all profiles are computed first and kept, then read: a profile must not change when later ones are built
+        full = h.create_tree_profile()
+        held = [(t, h.create_tree_profile(hog=t)) for t in h.get_list_top_level_hogs()]
+        out['tpfull'] = ob.profileS(full.treemap)
+        out['tphog'] = sorted(ob.profileS(tp.treemap, pathof(t.genome.taxon)) + '@' + nodekey(t) for t, tp in held)
     return out, allp
 
 def first_diff(a, b):
@@ -43,6 +45,29 @@ def c13(tier, seed):
         D = std_dataset(ex.rng, naming='own', maxleaves=ex.rng.choice([3, 4, 5, 6, 8]))
         cid = 'C13-%d' % k
         ex.note_dataset(D)
+        if ex.rng.random() < 0.4:
+            # TaxRange labels that name a clade ABOVE the level the members imply (e.g. after losses): the level rule
+            # ignores the label, so the way ancestral names are supplied must still make no difference
+            name_to_path = {gen.display_name(D.T, p, 'own'): p for p in gen.paths(D.T) if gen.sub(D.T, p)[1]}
+            changed = [0]
+            def relabel(e):
+                if e[0] == 'og':
+                    items = []
+                    for x in e[3]:
+                        if x[0] == 'prop' and x[1] == 'TaxRange' and x[2] in name_to_path and name_to_path[x[2]] and ex.rng.random() < 0.5:
+                            q_ = name_to_path[x[2]]
+                            up = q_[:ex.rng.randint(0, len(q_) - 1)]
+                            items.append(('prop', 'TaxRange', gen.display_name(D.T, up, 'own'))); changed[0] += 1
+                        else:
+                            items.append(relabel(x))
+                    return ('og', e[1], e[2], items)
+                if e[0] == 'pg':
+                    return ('pg', e[1], [relabel(x) for x in e[2]])
+                return e
+            D.groups = [relabel(g) for g in D.groups]
+            if changed[0]:
+                D.meta['mislabelled'] = changed[0]
+                ex.res.count('cases_with_labels_above_the_level', 1)
         base = load_or_fail(ex, cid, D)
         if base is None:
             continue
@@ -133,7 +158,8 @@ def c13(tier, seed):
             o.put('vmap', ob.vmapS(base.compare_genomes_vertically(gs[a], gs[dd])))
         o.put('tpfull', ref['tpfull'])
         q = ['(v %s %s)' % (tax_q(a), tax_q(dd)) for a, dd in pairs]
-        ex.submit(cid + '-own', D, o.tags, ['load', 'genes', 'members', 'forest', 'genomes', 'vmap', 'tpfull'], emit=['profiles'], queries=q)
+        ex.submit(cid + '-own', D, o.tags, ['load', 'genes', 'members', 'forest', 'genomes', 'vmap', 'tpfull'], emit=['profiles'], queries=q,
+                  hist=not D.meta.get('mislabelled'))
         D2 = copy_dataset(D); D2.naming = 'synth'
         ex.submit(cid + '-synth', D2, o.tags, ['load', 'genes', 'members', 'forest', 'genomes', 'vmap', 'tpfull'], emit=['profiles'], queries=q, hist=False)
     ex.finish()
@@ -291,6 +317,20 @@ def dup_name_trees(rng):
         if () not in (a, b) and len(internal) >= 2:
             c = rng.choice([x for x in internal if x != ()])
             out.append((rename(T, (), gen.sub(T, c)[0]), True, 'repeated internal name (root)'))
+    # collisions among SYNTHESISED names (use_internal_name=False): a single-child internal node spans the same leaf
+    # set as its child, and leaf names containing '/' can make two different clades spell the same joined name
+    if internal:
+        a = rng.choice(internal)
+        sub_ = gen.sub(T, a)
+        def wrap(T, p):
+            if not p:
+                return ('U', (T,))
+            ks = list(T[1]); ks[p[0]] = wrap(ks[p[0]], p[1:])
+            return (T[0], tuple(ks))
+        out.append((wrap(T, a), False, 'repeated synthesised name (single-child node)'))
+    x, y, z = rng.sample(['A', 'B', 'C', 'Dd', 'E1'], 3)
+    Ts = ('R', (('I1', ((x, ()), (y + '/' + z, ()))), ('I2', ((x + '/' + y, ()), (z, ())))) + ((('Out', ()),) if rng.random() < 0.5 else ()))
+    out.append((Ts, False, 'repeated synthesised name (slash in leaf names)'))
     return out
 
 def c15(tier, seed):
@@ -381,6 +421,25 @@ def c15(tier, seed):
                 except KeyError:
                     if want_p in gsn and not gsn[want_p].taxon.is_leaf():
                         bad.append('mrca lookup of %s raised KeyError although %s has a genome' % ([taxS(pathof(x.taxon)) for x in sub_], taxS(want_p)))
+            # listings and lookups stay coherent after calls that create (empty) genomes lazily
+            def coherent(when):
+                for g in h.get_list_extant_genomes():
+                    if h.get_extant_genome_by_name(g.name) is not g or h.get_taxon_by_name(g.name) is not g.taxon:
+                        bad.append('%s: extant genome %r not returned by its name' % (when, g.name))
+                for g in h.get_list_ancestral_genomes():
+                    try:
+                        if h.get_ancestral_genome_by_name(g.name) is not g or h.get_ancestral_genome_by_taxon(g.taxon) is not g:
+                            bad.append('%s: ancestral genome %r not returned identically by name / taxon' % (when, g.name))
+                    except KeyError:
+                        bad.append('%s: listed ancestral genome %r raises KeyError when looked up by name / taxon' % (when, g.name))
+            exg = h.get_list_extant_genomes()
+            if len(exg) >= 2:
+                a_, b_ = ex.rng.sample(exg, 2)
+                h.compare_genomes_lateral(a_, b_)
+                coherent('after a lateral comparison')
+            h.create_tree_profile()
+            coherent('after the whole-dataset tree profile')
+            ex.res.count('lookups_after_lazy_genome_creation')
             expect_key(h.get_gene_by_id, 'no-such-gene')
             expect_key(h.get_genes_by_external_id, 'no-such-xref')
             expect_key(h.get_hog_by_id, 'no-such-hog')
@@ -591,10 +650,13 @@ def c17(tier, seed):
         D = respell(ex.rng, std_dataset(ex.rng, maxleaves=ex.rng.choice([3, 4, 5, 6, 8])))
         cid = 'C17-%d' % k
         ex.note_dataset(D)
-        hs = [load_or_fail(ex, cid, D), load_or_fail(ex, cid, D)]
+        lkw = dict(phyloxml_dir=ex.tmp) if ex.rng.random() < 0.25 else {}
+        ex.res.count('tree_as_phyloxml_file' if lkw else 'tree_as_newick_string')
+        hs = [load_or_fail(ex, cid, D, **lkw), load_or_fail(ex, cid, D, **lkw)]
         if hs[0] is None or hs[1] is None:
             continue
         snaps = [snapshot(h) for h in hs]
+        held = []          # (call index, function that renders the RETURNED OBJECT again)
         taxa = sorted(p for p, g in genomes_of(hs[0]).items() if g.genes)
         tids = sorted(hs[0].get_dict_top_level_hogs())
         hogkeys = sorted(nodekey(x) for t in hs[0].get_list_top_level_hogs() for x in all_nodes(t) if isinstance(x, ag.HOG))
@@ -603,10 +665,26 @@ def c17(tier, seed):
         ops = []
         nops = ex.rng.randint(5, 40 if tier == 'thorough' else 25)
         for _ in range(nops):
-            kind = ex.rng.choice(['v', 'v', 'l', 'tp', 'tph', 'tph', 'tph', 'iham', 'iham', 'clust', 'lookup', 'nav', 'atlevel', 'repeat'])
+            kind = ex.rng.choice(['v', 'v', 'vrel', 'vrel', 'l', 'tp', 'tph', 'tph', 'tph', 'iham', 'iham', 'clust', 'lookup', 'gname', 'nav', 'atlevel', 'repeat'])
             if kind == 'repeat' and ops:
                 ops.append(ex.rng.choice(ops)[:]); ops[-1][0] = ex.rng.randint(0, 1); continue
             w = ex.rng.randint(0, 1)
+            if kind == 'vrel':
+                # a comparison RELATED to an earlier one on the same analysis: same ancestor with a sister / intermediate /
+                # deeper genome, or the same descendant with another ancestor (shared lookups, shared caches)
+                prev = [o_ for o_ in ops if o_[1] in ('v', 'l')]
+                if prev:
+                    pw, _, a, b = ex.rng.choice(prev)
+                    anc, dsc = (a, b) if len(a) <= len(b) else (b, a)
+                    cands = [t for t in taxa if t != dsc and t != anc and t[:len(anc)] == anc] if ex.rng.random() < 0.7 else \
+                            [t for t in taxa if t != anc and dsc[:len(t)] == t and t != dsc]
+                    if cands:
+                        other = ex.rng.choice(cands)
+                        ops.append([pw, 'v', anc, other] if other[:len(anc)] == anc else [pw, 'v', other, dsc])
+                        ex.res.count('related_comparisons')
+                continue
+            if kind == 'gname':
+                ops.append([w, 'gname', ex.rng.choice(taxa)] if taxa else [w, 'tp']); continue
             if kind in ('v', 'l') and len(taxa) >= 2:
                 a, b = ex.rng.sample(taxa, 2); ops.append([w, kind, a, b])
             elif kind == 'tp':
@@ -622,7 +700,7 @@ def c17(tier, seed):
             elif kind == 'atlevel' and hogkeys and taxa:
                 ops.append([w, 'atlevel', ex.rng.choice(hogkeys), ex.rng.choice(taxa)])
         ex.res.count('ops', len(ops))
-        def run_op(h, op):
+        def run_op(h, op, keep):
             gs = genomes_of(h)
             byk = {nodekey(x): x for t in h.get_list_top_level_hogs() for x in all_nodes(t)}
             kind = op[1]
@@ -633,12 +711,18 @@ def c17(tier, seed):
                 if kind == 'l':
                     lm = h.compare_genomes_lateral(gs[op[2]], gs[op[3]])
                     lm.get_lost(); lm.get_gained(); lm.get_retained(); lm.get_duplicated()
-                    return 'lmap anc=%s|' % taxS(pathof(lm.ancestor.taxon)) + ' # '.join(sorted(ob.hmapS(m) for m in lm.maps.values()))
+                    rl = lambda: 'lmap anc=%s|' % taxS(pathof(lm.ancestor.taxon)) + ' # '.join(sorted(ob.hmapS(m) for m in lm.maps.values()))
+                    keep.append(rl)
+                    return rl()
                 if kind == 'tp':
-                    return 'tpfull ' + ob.profileS(h.create_tree_profile().treemap)
+                    tp_ = h.create_tree_profile()
+                    keep.append(lambda: 'tpfull ' + ob.profileS(tp_.treemap))
+                    return keep[-1]()
                 if kind == 'tph':
                     t = byk[op[2]]
-                    return 'tphog ' + ob.profileS(h.create_tree_profile(hog=t).treemap, pathof(t.genome.taxon))
+                    tp_ = h.create_tree_profile(hog=t)
+                    keep.append(lambda: 'tphog ' + ob.profileS(tp_.treemap, pathof(t.genome.taxon)))
+                    return keep[-1]()
                 if kind == 'iham':
                     x = byk[op[2]]
                     vis = h.create_iHam(x)
@@ -655,6 +739,10 @@ def c17(tier, seed):
                     if hasattr(g, 'get_ancestral_clustering'):
                         return 'clust ' + ';'.join(sorted(nodekey(a) + '=' + ','.join(sorted(z.unique_id for z in b)) for a, b in g.get_ancestral_clustering().items()))
                     return 'clust -'
+                if kind == 'gname':
+                    g = gs[op[2]]
+                    f = h.get_ancestral_genome_by_name if g.taxon.children else h.get_extant_genome_by_name
+                    return 'gname %s %s' % (taxS(op[2]), 'same' if f(g.name) is g else 'OTHER')
                 if kind == 'lookup':
                     g = h.get_gene_by_id(op[2])
                     return 'lookup %s %s %s' % (g.unique_id, g.genome.name, nodekey(h.get_hog_by_gene(g)) if g.parent is not None else 'singleton')
@@ -664,16 +752,35 @@ def c17(tier, seed):
             except Exception as e:      # noqa
                 return 'err:' + ob.err_name(e)
         outs = []
-        for op in ops:
-            outs.append(run_op(hs[op[0]], op))
+        for i, op in enumerate(ops):
+            keep = []
+            outs.append(run_op(hs[op[0]], op, keep))
+            held += [(i, f) for f in keep]
+        # a result that was handed out must not change when later calls are made (no aliasing of returned objects)
+        for i, f in held:
+            try:
+                again = f()
+            except Exception as e:      # noqa
+                again = 'err:' + ob.err_name(e)
+            if again != outs[i]:
+                bad.append('the object returned by call #%d %s changed after later calls' % (i, ops[i][1:]))
+        ex.res.count('returned_objects_reread', len(held))
         fresh_out = []
         for op in ops:
-            fh = core.load_py(D)
-            fresh_out.append(run_op(fh, op))
+            fh = core.load_py(D, **lkw)
+            fresh_out.append(run_op(fh, op, []))
         for i, (a, b) in enumerate(zip(outs, fresh_out)):
             if a != b:
                 bad.append('call #%d %s returns a result that differs from the same call on a fresh analysis' % (i, ops[i][1:]))
         for i, h in enumerate(hs):
+            # listings and lookups by name still agree (genomes created lazily by the calls above included)
+            for g in h.get_list_ancestral_genomes() + h.get_list_extant_genomes():
+                try:
+                    f = h.get_ancestral_genome_by_name if g.taxon.children else h.get_extant_genome_by_name
+                    if f(g.name) is not g:
+                        bad.append('analysis %d: listed genome %r is not the one returned by its name' % (i, g.name))
+                except KeyError:
+                    bad.append('analysis %d: listed genome %r raises KeyError when looked up by name after the call sequence' % (i, g.name))
             s2 = snapshot(h)
             if s2 != snaps[i]:
                 bad.append('analysis %d changed after the call sequence (%s)' % (i, 'forest' if s2[0] != snaps[i][0] else 'genes' if s2[1] != snaps[i][1] else 'genome content' if s2[2] != snaps[i][2] else 'links'))
